@@ -338,6 +338,10 @@ class Renderer:
             parts += [f"str(self.A{i})" for i in range(len(f.get("clsattr", [])))]
         for k in range(self.variant.get("pad:" + name, 0)):
             lines.append(f"{ind}_pad{k} = 0")
+        if f.get("returns_none"):
+            lines.append(f"{ind}_t = \"{name}#{tag}\"")   # (the body text still carries the tag)
+            lines.append(f"{ind}return None")
+            return lines
         lines.append(f"{ind}return \"{name}#{tag}(\" + \",\".join([{', '.join(parts)}]) + \")\"" + (f" + {f['suffix']!r}" if f.get("suffix") else ""))
         return lines
 
